@@ -15,15 +15,24 @@ import CoxeterVerif.Lemmas.DistToSurface
     parameter at which the ray meets the supporting line of the selected edge)
   * `cpoly_edge_dts_on_segment`                (a ray in the edge's angular sector meets the
     segment itself, and the code returns that distance)
+  * `spg_outward_unit_normal`                  (`_get_outward_unit_normal`, all slope / sign cases:
+    unit, perpendicular to the edge, pointing away from the centre)
   * `spg_arc_on_circle`, `spg_arc_root_largest` (arc branch: the returned root is on the vertex
     circle and is the larger root)
   `_partial`
   * `cpoly_dts_selects_edge_partial`: the angular bin `[α_i, α_{i+1}]` of the vertex angles the
-    code computes selects an edge the ray really meets; NOT proved: that `binsFold` over the
-    rolled rows returns exactly that edge's value (sortedness of the rolled vertex angles for a
-    convex counter-clockwise polygon with the centre strictly inside), and `α_{i+1} − α_i < π`
-    from convexity; both are hypotheses here.  The spheropolygon's straight part (offset vertices
-    form the offset polygon; arc ranges tile the complement) is correspondence + oracle only.
+    code computes selects an edge the ray really meets, and the coded branch returns that distance
+    (hypotheses: `α_i < α_{i+1}`, `α_{i+1} − α_i < π`, `cos a ≠ 0` for a generic edge).
+  * `cpoly_dts_on_boundary_partial`: the WHOLE function (mod, roll to the smallest angle, bins, wrap
+    bin, `2π + eps` closing bound, three branches): if the computed vertex angles increase along
+    the rolled list with gaps `< π` (`DTS.ChainOK`), then for every real `θ` the slot is assigned,
+    `d > 0` and `centre + d(cos θ, sin θ)` is on an edge segment of the polygon.
+    NOT proved: `ChainOK` from "convex, counter-clockwise, centre strictly inside" (a statement
+    about `atan2` of consecutive vertices of a convex polygon); `cos θ ≠ 0` is assumed when the
+    polygon has a generic edge (over ℝ `tan(π/2)` is a junk value; in floating point `cos` never
+    vanishes and the oracle covers those angles).
+  * The spheropolygon's straight part (offset vertices form the offset polygon; the arc ranges tile
+    the complement of the straight parts) is correspondence + oracle only.
 -/
 open Scalar
 set_option maxRecDepth 4000
@@ -311,11 +320,254 @@ theorem cpoly_dts_selects_edge_partial (p1 p2 : P2 ℝ) (a a' α1 α2 : ℝ)
   rw [hα1.1, hα1.2, hα2.1, hα2.2, ha'.1, ha'.2] at hsec
   exact cpoly_edge_dts_on_segment p1 p2 a hsec.1 hsec.2.1 hsec.2.2 hcos
 
+/-- edge `(1,0) → (0,1)` of the diamond, direction `π/4` between the vertex angles `0` and `π/2` -/
+example : 0 < DTS.edgeDist (DTS.mkEdge (⟨1, 0⟩ : P2 ℝ) ⟨0, 1⟩) (Real.pi / 4) ∧
+    Spec.onSegment (Spec.rayPoint (DTS.edgeDist (DTS.mkEdge (⟨1, 0⟩ : P2 ℝ) ⟨0, 1⟩) (Real.pi / 4)) (Real.pi / 4))
+      ⟨1, 0⟩ ⟨0, 1⟩ := by
+  have hpi := Real.pi_pos
+  apply cpoly_dts_selects_edge_partial _ _ (Real.pi / 4) (Real.pi / 4) 0 (Real.pi / 2)
+  · simp [P2.norm_real]
+  · simp [P2.norm_real]
+  · simp [P2.norm_real]
+  · simp [P2.norm_real]
+  · exact ⟨rfl, rfl⟩
+  · positivity
+  · linarith
+  · positivity
+  · linarith
+  · intro _ _; rw [Real.cos_pi_div_four]; positivity
+
 /-- the vertex angles of the model satisfy the polar hypotheses of the previous theorem -/
 theorem cpoly_vertex_angle_polar (v : P2 ℝ) :
     P2.norm v * Real.cos (DTS.fmod (Scalar.atan2 v.y v.x) DTS.twoPi) = v.x ∧
     P2.norm v * Real.sin (DTS.fmod (Scalar.atan2 v.y v.x) DTS.twoPi) = v.y :=
   polar_vertexAngle v
+
+/-! ## Convex polygon: the whole loop -/
+
+/-- what is known about the value in a slot: positive, and on an edge of the polygon -/
+def DTS.Good (a : ℝ) (E : P2 ℝ × P2 ℝ → Prop) (o : Option ℝ) : Prop :=
+  ∀ d, o = some d → 0 < d ∧ ∃ e, E e ∧ Spec.onSegment (Spec.rayPoint d a) e.1 e.2
+
+open DTS in
+theorem cpoly_binsFold_good (a : ℝ) (ha2 : a < twoPi) (f : P2 ℝ) (E : P2 ℝ × P2 ℝ → Prop) :
+    ∀ (W : List (P2 ℝ)) (acc : Option ℝ), ChainOK f W →
+      (∀ e ∈ cycPairs f W, e.1.x ≠ e.2.x → e.1.y ≠ e.2.y → Real.cos a ≠ 0) →
+      (∀ e ∈ cycPairs f W, E e) → DTS.Good a E acc →
+      DTS.Good a E (binsFold a (vang f) (rowsAux f W) acc) := by
+  intro W
+  induction W with
+  | nil => intro acc _ _ _ h; simpa [rowsAux, binsFold] using h
+  | cons p W' ih =>
+    intro acc hch hcos hE hacc
+    cases W' with
+    | nil =>
+      simp only [rowsAux]
+      rw [binsFold_single]
+      obtain ⟨hp, hf, hlt, hpi⟩ := hch
+      split_ifs with hin
+      · intro d hd
+        have hd' : edgeDist (mkEdge p f) a = d := by simpa using hd
+        rw [← hd']
+        have hpol2 : P2.norm f * Real.cos (vang f + twoPi) = f.x ∧
+            P2.norm f * Real.sin (vang f + twoPi) = f.y := by
+          have hc := Real.cos_add_int_mul_two_pi (vang f) 1
+          have hs := Real.sin_add_int_mul_two_pi (vang f) 1
+          simp only [Int.cast_one, one_mul] at hc hs
+          rw [twoPi_real, hc, hs]
+          exact polar_vertexAngle f
+        have hcs := hcos (p, f) (by simp [cycPairs])
+        simp only [Bool.or_eq_true, Bool.and_eq_true, decide_eq_true_eq] at hin
+        have hf0 := (vang_range f).1
+        rcases hin with ⟨h1, _⟩ | ⟨h1, h2⟩
+        · have := cpoly_dts_selects_edge_partial p f a a (vang p) (vang f + twoPi) hp hf
+            (polar_vertexAngle p) hpol2 ⟨rfl, rfl⟩ h1 (by linarith) hlt hpi hcs
+          exact ⟨this.1, (p, f), hE _ (by simp [cycPairs]), this.2⟩
+        · have hc := Real.cos_add_int_mul_two_pi a 1
+          have hs := Real.sin_add_int_mul_two_pi a 1
+          simp only [Int.cast_one, one_mul] at hc hs
+          rw [← twoPi_real] at hc hs
+          have := cpoly_dts_selects_edge_partial p f a (a + twoPi) (vang p) (vang f + twoPi) hp hf
+            (polar_vertexAngle p) hpol2 ⟨hc, hs⟩ (by linarith) (by linarith) hlt hpi hcs
+          exact ⟨this.1, (p, f), hE _ (by simp [cycPairs]), this.2⟩
+      · exact hacc
+    | cons q rest =>
+      simp only [rowsAux]
+      rw [binsFold_cons _ _ _ _ _ _ (rowsAux_ne_nil f q rest)]
+      obtain ⟨hp, hq, hlt, hpi, hrest⟩ := hch
+      apply ih _ hrest
+      · intro e he; exact hcos e (by simp [cycPairs, he])
+      · intro e he; exact hE e (by simp [cycPairs, he])
+      · split_ifs with hin
+        · intro d hd
+          have hd' : edgeDist (mkEdge p q) a = d := by simpa using hd
+          rw [← hd']
+          simp only [Bool.and_eq_true, decide_eq_true_eq] at hin
+          have hcs := hcos (p, q) (by simp [cycPairs])
+          have := cpoly_dts_selects_edge_partial p q a a (vang p) (vang q) hp hq
+            (polar_vertexAngle p) (polar_vertexAngle q) ⟨rfl, rfl⟩ hin.1 hin.2.le hlt hpi hcs
+          exact ⟨this.1, (p, q), hE _ (by simp [cycPairs]), this.2⟩
+        · exact hacc
+
+
+
+/-- **C14 polygon, function level (`_partial`).**  Let `W` be the centred, aligned vertex list
+rolled to its smallest vertex angle (what the loop runs over).  If the vertex angles the code
+computes increase along `W` with gaps `< π`, the wrap gap included (`ChainOK`: the angular meaning
+of "convex, counter-clockwise, centre strictly inside"), then for EVERY real `θ` — with `cos θ ≠ 0`
+whenever the polygon has an edge that is neither horizontal nor vertical — the slot is assigned,
+the returned `d` is positive, and `centre + d (cos θ, sin θ)` lies on an edge segment of the polygon.
+Missing for the unconditional statement: deriving `ChainOK` from convexity + interior centre. -/
+theorem cpoly_dts_on_boundary_partial (R : M2 ℝ) (flip : Bool) (V : List (P2 ℝ)) (c : P2 ℝ) (θ : ℝ)
+    (p0 : P2 ℝ) (T : List (P2 ℝ))
+    (hW : DTS.rollL (DTS.argmin (DTS.vertexAngles (DTS.alignedVerts R flip V c)))
+      (DTS.alignedVerts R flip V c) = p0 :: T)
+    (hchain : DTS.ChainOK p0 (p0 :: T))
+    (hcos : ∀ e ∈ Spec.edgesOf (p0 :: T), e.1.x ≠ e.2.x → e.1.y ≠ e.2.y → Real.cos θ ≠ 0) :
+    ∃ d, DTS.cpolyDtsFrom R flip V c θ = some d ∧ 0 < d ∧
+      Spec.onPolyBoundary (p0 :: T) (Spec.rayPoint d θ) := by
+  obtain ⟨ha0, ha2⟩ := DTS.fmod_range θ
+  set a := DTS.fmod θ DTS.twoPi with hadef
+  have hca : Real.cos a = Real.cos θ := DTS.cos_fmod θ
+  have hsa : Real.sin a = Real.sin θ := DTS.sin_fmod θ
+  have hrows := DTS.binRows_eq _ p0 T hW
+  have hfirst : ∃ x rest, DTS.rowsAux p0 (p0 :: T) = (DTS.vang p0, x) :: rest := by
+    cases T with
+    | nil => exact ⟨_, _, rfl⟩
+    | cons q rest => exact ⟨_, _, rfl⟩
+  obtain ⟨x, rest, hr⟩ := hfirst
+  have hval : DTS.cpolyDtsFrom R flip V c θ =
+      DTS.binsFold a (DTS.vang p0) (DTS.rowsAux p0 (p0 :: T)) none := by
+    unfold DTS.cpolyDtsFrom
+    simp only [hrows, ← hadef]
+    rw [hr]
+  rw [DTS.edgesOf_cons] at hcos
+  have hgood := cpoly_binsFold_good a ha2 p0 (fun e => e ∈ DTS.cycPairs p0 (p0 :: T)) (p0 :: T) none
+    hchain (by rw [hca]; exact hcos) (fun e he => he) (by intro d hd; exact absurd hd (by simp))
+  have hsome : (DTS.binsFold a (DTS.vang p0) (DTS.rowsAux p0 (p0 :: T)) none).isSome = true := by
+    by_cases h : a < DTS.vang p0
+    · exact DTS.binsFold_cover_lt a ha0 p0 h _ _ (by simp)
+    · exact DTS.binsFold_cover_ge a ha2 p0 _ _ p0 T rfl (not_lt.mp h)
+  obtain ⟨d, hd⟩ := Option.isSome_iff_exists.mp hsome
+  obtain ⟨hdpos, e, he, hseg⟩ := hgood d hd
+  refine ⟨d, by rw [hval, hd], hdpos, e, ?_, ?_⟩
+  · rw [DTS.edgesOf_cons]; exact he
+  · have : Spec.rayPoint d θ = Spec.rayPoint d a := by
+      simp only [Spec.rayPoint, Scalar.cos_real, Scalar.sin_real, hca, hsa]
+    rw [this]; exact hseg
+
+/-- the diamond `(1,0), (0,1), (−1,0), (0,−1)` about its centre, direction `θ = 0` (all four edges
+are generic; vertex angles `0, π/2, π, 3π/2`): every hypothesis of the theorem holds -/
+example : ∃ d, DTS.cpolyDtsFrom M2.id false [⟨1, 0⟩, ⟨0, 1⟩, ⟨-1, 0⟩, ⟨0, -1⟩] ⟨0, 0⟩ (0 : ℝ) = some d ∧ 0 < d ∧
+    Spec.onPolyBoundary [⟨1, 0⟩, ⟨0, 1⟩, ⟨-1, 0⟩, ⟨0, -1⟩] (Spec.rayPoint d 0) := by
+  have hA : DTS.alignedVerts M2.id false [⟨1, 0⟩, ⟨0, 1⟩, ⟨-1, 0⟩, ⟨0, -1⟩] (⟨0, 0⟩ : P2 ℝ) =
+      [⟨1, 0⟩, ⟨0, 1⟩, ⟨-1, 0⟩, ⟨0, -1⟩] := by
+    simp [DTS.alignedVerts, M2.apply, M2.id, Scalar.lit]
+  have hang : DTS.vertexAngles ([⟨1, 0⟩, ⟨0, 1⟩, ⟨-1, 0⟩, ⟨0, -1⟩] : List (P2 ℝ)) =
+      [0, Real.pi / 2, Real.pi, 3 * Real.pi / 2] := by
+    have h : ∀ l : List (P2 ℝ), DTS.vertexAngles l = l.map DTS.vang := fun _ => rfl
+    rw [h]
+    simp only [List.map_cons, List.map_nil, DTS.vang_e1, DTS.vang_e2, DTS.vang_e3, DTS.vang_e4]
+  have hpi := Real.pi_pos
+  have hmin : DTS.argmin ([0, Real.pi / 2, Real.pi, 3 * Real.pi / 2] : List ℝ) = 0 := by
+    simp only [DTS.argmin, DTS.argminAux]
+    rw [if_neg (by linarith), if_neg (by linarith), if_neg (by linarith)]
+  apply cpoly_dts_on_boundary_partial
+  · rw [hA, hang, hmin]; rfl
+  · simp only [DTS.ChainOK, DTS.vang_e1, DTS.vang_e2, DTS.vang_e3, DTS.vang_e4, DTS.twoPi_real,
+      P2.norm_real]
+    norm_num
+    (repeat' apply And.intro) <;> linarith
+  · intro _ _ _ _; simp
+
+/-! ## Spheropolygon: outward unit normals -/
+
+/-- **`_get_outward_unit_normal`, all slope / sign cases.** For an edge direction `vec ≠ 0` through
+`pt` whose line misses the centre (`cross(vec, pt) ≠ 0`) the returned vector is a unit vector,
+perpendicular to the edge, pointing away from the centre (`n · pt > 0`). -/
+theorem spg_outward_unit_normal (vec pt : P2 ℝ) (hcr : Spec.cross vec pt ≠ 0) :
+    let n := DTS.outwardUnitNormal vec pt
+    n.x * n.x + n.y * n.y = 1 ∧ n.x * vec.x + n.y * vec.y = 0 ∧ 0 < n.x * pt.x + n.y * pt.y := by
+  intro n
+  simp only [Spec.cross] at hcr
+  simp only [n, DTS.outwardUnitNormal, Scalar.eqb_real, Scalar.lit, Scalar.ofNat_real, Nat.cast_zero,
+    Nat.cast_one, decide_eq_true_eq, Scalar.sqrt_real]
+  by_cases hvx : vec.x = 0
+  · rw [if_pos hvx]
+    have hpx : pt.x ≠ 0 := by
+      intro h; apply hcr; rw [hvx, h]; ring
+    obtain ⟨h1, h2⟩ := sign_mul_self_pos pt.x hpx
+    simp only [mul_one, mul_zero, add_zero, zero_mul, hvx]
+    exact ⟨h2, trivial, h1⟩
+  · rw [if_neg hvx]
+    have hy : pt.y - vec.y / vec.x * pt.x = (vec.x * pt.y - vec.y * pt.x) / vec.x := by
+      field_simp
+    have hy0 : pt.y - vec.y / vec.x * pt.x ≠ 0 := by
+      rw [hy]; exact div_ne_zero hcr hvx
+    by_cases hm : vec.y / vec.x = 0
+    · rw [if_pos hm]
+      have hvy : vec.y = 0 := by
+        rcases div_eq_zero_iff.mp hm with h | h
+        · exact h
+        · exact absurd h hvx
+      obtain ⟨h1, h2⟩ := sign_mul_self_pos _ hy0
+      have e : pt.y - vec.y / vec.x * pt.x = pt.y := by rw [hm]; ring
+      simp only [mul_one, zero_mul, zero_add]
+      refine ⟨h2, by rw [hvy]; ring, ?_⟩
+      rw [e] at h1 ⊢; exact h1
+    · rw [if_neg hm]
+      set m := vec.y / vec.x with hmdef
+      set y0 := pt.y - m * pt.x with hy0def
+      have hN : 0 < Real.sqrt (-m * -m + 1 * 1) := Real.sqrt_pos.mpr (by nlinarith [mul_self_nonneg m])
+      have hNN := Real.mul_self_sqrt (show (0:ℝ) ≤ -m * -m + 1 * 1 by nlinarith [mul_self_nonneg m])
+      set N := Real.sqrt (-m * -m + 1 * 1) with hNdef
+      have hN' : N ≠ 0 := hN.ne'
+      have hvy : vec.y = m * vec.x := by rw [hmdef]; field_simp
+      rcases lt_or_gt_of_ne hm with hneg | hpos
+      · -- slope < 0 : nx > 0
+        have hnx : 0 < -m / N := div_pos (by linarith) hN
+        rw [if_neg (not_lt.mpr hneg.le)]
+        rcases lt_or_gt_of_ne hy0 with hyn | hyp
+        · have hflip : ((decide (0 < y0) && decide (-m / N < 0)) || (decide (y0 < 0) && decide (0 < -m / N))) = true := by
+            simp [hyn, hnx]
+          rw [if_pos hflip]
+          refine ⟨?_, ?_, ?_⟩
+          · field_simp; nlinarith
+          · rw [hvy]; field_simp; ring
+          · have : -m / N * -1 * pt.x + 1 / N * -1 * pt.y = -y0 / N := by rw [hy0def]; field_simp; ring
+            rw [this]; exact div_pos (by linarith) hN
+        · have hflip : ¬ ((decide (0 < y0) && decide (-m / N < 0)) || (decide (y0 < 0) && decide (0 < -m / N))) = true := by
+            simp [hyp, hnx, not_lt.mpr hyp.le, not_lt.mpr hnx.le]
+          rw [if_neg hflip]
+          refine ⟨?_, ?_, ?_⟩
+          · field_simp; nlinarith
+          · rw [hvy]; field_simp; ring
+          · have : -m / N * pt.x + 1 / N * pt.y = y0 / N := by rw [hy0def]; field_simp; ring
+            rw [this]; exact div_pos hyp hN
+      · -- slope > 0 : nx < 0
+        have hnx : -m / N < 0 := div_neg_of_neg_of_pos (by linarith) hN
+        rw [if_pos hpos]
+        rcases lt_or_gt_of_ne hy0 with hyn | hyp
+        · have hflip : ((decide (0 < y0) && decide (0 < -m / N)) || (decide (y0 < 0) && decide (-m / N < 0))) = true := by
+            simp [hyn, hnx]
+          rw [if_pos hflip]
+          refine ⟨?_, ?_, ?_⟩
+          · field_simp; nlinarith
+          · rw [hvy]; field_simp; ring
+          · have : -m / N * -1 * pt.x + 1 / N * -1 * pt.y = -y0 / N := by rw [hy0def]; field_simp; ring
+            rw [this]; exact div_pos (by linarith) hN
+        · have hflip : ¬ ((decide (0 < y0) && decide (0 < -m / N)) || (decide (y0 < 0) && decide (-m / N < 0))) = true := by
+            simp [hyp, hnx, not_lt.mpr hyp.le, not_lt.mpr hnx.le]
+          rw [if_neg hflip]
+          refine ⟨?_, ?_, ?_⟩
+          · field_simp; nlinarith
+          · rw [hvy]; field_simp; ring
+          · have : -m / N * pt.x + 1 / N * pt.y = y0 / N := by rw [hy0def]; field_simp; ring
+            rw [this]; exact div_pos hyp hN
+
+/-- edge direction `(−1, 2)` through `(2, 0)` (generic slope −2, intercept 4): all hypotheses hold -/
+example : 0 < (DTS.outwardUnitNormal (⟨-1, 2⟩ : P2 ℝ) ⟨2, 0⟩).x * 2 + (DTS.outwardUnitNormal (⟨-1, 2⟩ : P2 ℝ) ⟨2, 0⟩).y * 0 :=
+  (spg_outward_unit_normal ⟨-1, 2⟩ ⟨2, 0⟩ (by norm_num [Spec.cross])).2.2
 
 /-! ## Spheropolygon: the arc branch -/
 
